@@ -40,6 +40,7 @@ struct SeqStats {
     c06_charged_checks: u64,
     c06_charged_zero_borrow_limit: u64,
     c06_prog_fee_checks: u64,
+    c06_conservation_checks: u64,
     c06_foreign_group_cranks: u64,
     skips: Vec<(&'static str, &'static str)>,
     borrow_ok: bool,
@@ -129,6 +130,7 @@ fn run_case(target: Target, spec: &WorldSpec, ops: &[Op], stats: &mut SeqStats, 
             stats.c06_charged_checks = m.c06.charged_checks;
             stats.c06_charged_zero_borrow_limit = m.c06.charged_zero_borrow_limit;
             stats.c06_prog_fee_checks = m.c06.prog_fee_checks;
+            stats.c06_conservation_checks = m.c06.conservation_checks;
             stats.c06_foreign_group_cranks = m.c06.foreign_group_cranks;
         }
         // statistics for the non-trivial rules
@@ -235,7 +237,7 @@ fn rule(target: Target) -> &'static str {
         Target::C02 => "stateful proptest (same campaign): after every committed transaction, for every bank d(total shares) == sum over ALL accounts of d(position shares) bit-exactly, except close_balance / account-close which may abandon < 0.0001 units / < 1 share; running check total - sum(positions) == abandoned dust. Non-trivial = >= 2 accounts hold the same bank, a position was fully closed, and a liquidation/bankruptcy/receivership executed.",
         Target::C16 => "stateful proptest (same campaign): after every committed transaction every MarginfiAccount in the store: distinct banks, one side per bank, sorted active slots, tag rules, <= 8 integration / <= 16 positions, tags stable; close only when empty & unflagged; disabled accounts cannot act; transfer moves positions once. Non-trivial = an account reached >= 3 positions and a position was closed or a liquidation/bankruptcy ran.",
         Target::C03 => "stateful proptest (same campaign): for every successful deposit/withdraw/borrow/repay (+all variants) compare, in exact rationals at the share values the instruction transacted at, tokens the user received vs value removed from the position, and value credited vs tokens that reached the vault (few-ulp allowance); withdraw_all pays <= floor(value), repay_all brings >= debt. Non-trivial = amount > 0 on a bank whose share values differ from 1 (reached by real accrual or real loss socialisation). Plus the exhaustive round-trip driver (see labels).",
-        Target::C06 => "stateful proptest (same campaign) + differential probe: after every successful transacting instruction bank.last_update == clock and share values never decrease; from the pre-state, [accrue; op] and [op] must end in bit-identical bank totals/share values/fees/vaults and user shares (an instruction that transacts against stale share values differs); accrue twice at one timestamp leaves the bank bytes unchanged; and, independently of the program's accrual code, whenever such an instruction finds the bank last updated at t0 < now with >= 1 unit of deposits and of debt, the liability share value must have grown by at least lsv x (exact seven-point curve at the pre-state utilisation - 2^-12 + fixed insurance and group fees; legacy curve: fixed fees only) x dt / year (evaluated when that is >= 256 ulps; counted, also separately for banks whose borrow limit is 0). a bank of a group whose program-fee switch is off books no program fee in any step that charges fees through accrual only (crank, deposit, withdraw, repay, balance closure); the interest crank sent with a freshly created foreign group in its group slot is refused or leaves the bank exactly where the honest crank does. Non-trivial = probe executed on a bank with loans and dt > 0. Plus the pure accrual-function check (labels accrual:*).",
+        Target::C06 => "stateful proptest (same campaign) + differential probe: after every successful transacting instruction bank.last_update == clock and share values never decrease; from the pre-state, [accrue; op] and [op] must end in bit-identical bank totals/share values/fees/vaults and user shares (an instruction that transacts against stale share values differs); accrue twice at one timestamp leaves the bank bytes unchanged; and, independently of the program's accrual code, whenever such an instruction finds the bank last updated at t0 < now with >= 1 unit of deposits and of debt, the liability share value must have grown by at least lsv x (exact seven-point curve at the pre-state utilisation - 2^-12 + fixed insurance and group fees; legacy curve: fixed fees only) x dt / year (evaluated when that is >= 256 ulps; counted, also separately for banks whose borrow limit is 0). over every interest crank that changed the bank, d(debt) = d(deposits) + d(fees) within 64 magnitude-scaled ulps, both directions; a bank of a group whose program-fee switch is off books no program fee in any step that charges fees through accrual only (crank, deposit, withdraw, repay, balance closure); the interest crank sent with a freshly created foreign group in its group slot is refused or leaves the bank exactly where the honest crank does. Non-trivial = probe executed on a bank with loans and dt > 0. Plus the pure accrual-function check (labels accrual:*).",
         Target::C17 => "stateful proptest (same campaign, limits drawn from {0, small, mid, u64::MAX}): after successful deposit A*asv < deposit_limit, after successful borrow L*lsv < borrow_limit and A*asv > L*lsv - 1 ulp (2^-48 native units: the truncation of the program's own I80F48 comparison), after withdraw the same, deposit_up_to_limit never fails with the capacity error. Non-trivial = a capacity/limit/utilisation rejection was observed in the sequence (the frontier was reached) or an up-to-limit deposit accrued interest inside the instruction.",
     }
 }
@@ -265,6 +267,7 @@ pub fn run_target(ctx: &Ctx, target: Target) -> Report {
                     rep.add_extra("interest_really_charged_evaluations", stats.c06_charged_checks);
                     rep.add_extra("interest_really_charged_evaluations_on_banks_with_borrow_limit_0", stats.c06_charged_zero_borrow_limit);
                     rep.add_extra("program_fee_zero_while_disabled_evaluations", stats.c06_prog_fee_checks);
+                    rep.add_extra("crank_conservation_evaluations", stats.c06_conservation_checks);
                     rep.add_extra("interest_cranks_with_a_foreign_group_refused_or_identical", stats.c06_foreign_group_cranks);
                 }
                 rep.add_extra("disabled_accounts_probed", stats.disabled_probed);
